@@ -787,6 +787,7 @@ func famCodec(dir string, seed int64, tier string) {
 	}
 
 	apiHugeBlob(repDec)
+	apiPolledDecoder(repDec, r)
 	apiFilterOverFaults(repDec)
 	apiEncodeBesideUnmarshal(repEnc)
 	apiSinkMarshalFaults(repWf)
